@@ -268,10 +268,166 @@ def run(ctx):
         check_written(m, ml.Molecule, "molecule", f"parent link dead: Promolecule(m.atoms[{k0}:]).formula",
                       {"kind": "dead-parent", "spec": spec, "from": k0}, True)
 
+    def edit_history(spec, cls):
+        """write – edit – write on ONE object: every written text is the model writer's text for the object's CURRENT
+        state (atom positions of the bond endpoints as they are now)"""
+        from molli.chem import Bond
+
+        m = tl.build_molecule(en, spec, cls)
+        kw = "molecule" if cls is ml.Molecule else "structure"
+        done = []
+        plan = ["write"] + [rng.choice(["del+add", "del+add", "add", "del", "add-bond", "del-bond", "del+add+bond"])
+                            for _ in range(rng.range(1, 3))] + ["write", "del+add", "write"]
+        for op in plan:
+            done.append(op)
+            n = m.n_atoms
+            try:
+                if op == "write":
+                    check_written(m, cls, kw, f"{cls.__name__} after edits: {'; '.join(done)}",
+                                  {"kind": "edit-history", "class": cls.__name__, "spec": spec, "ops": list(done)}, cls is ml.Molecule)
+                    continue
+                new_atom = lambda: Atom(en.E[rng.choice([6, 7, 8, 17])], label=tl.gen_label(rng) or None)
+                xyz = [tl.gen_coord(rng, False) for _ in range(3)]
+                if op.startswith("del+add") and n >= 1:
+                    m.del_atom(rng.below(n))
+                    a = new_atom()
+                    m.add_atom(a, xyz, tl.gen_charge(rng, False)) if cls is ml.Molecule else m.add_atom(a, xyz)
+                    if op.endswith("bond") and m.n_atoms >= 2:
+                        m.append_bond(Bond(a, m.atoms[rng.below(m.n_atoms - 1)], btype=en.B[rng.below(len(en.B))]))
+                elif op == "add":
+                    a = new_atom()
+                    m.add_atom(a, xyz, tl.gen_charge(rng, False)) if cls is ml.Molecule else m.add_atom(a, xyz)
+                elif op == "del" and n >= 2:
+                    m.del_atom(rng.below(n))
+                elif op == "add-bond" and n >= 2:
+                    i, j = rng.below(n), rng.below(n)
+                    if i != j:
+                        m.append_bond(Bond(m.atoms[i], m.atoms[j], btype=en.B[rng.below(len(en.B))]))
+                elif op == "del-bond" and m.n_bonds >= 1:
+                    m.del_bond(m.bonds[rng.below(m.n_bonds)])
+            except Exception as e:  # noqa: BLE001
+                ctx.disagree("an edit through the public API raised", {"ops": done, "spec": spec}, repr(e), "ok")
+                return
+
+    def growth_history(base):
+        """write – grow – write on ONE ensemble (append / extend in both forms, before and after a first dump or
+        iteration): every mol2 text holds every conformer the ensemble has at that moment, in order"""
+        def make_conf():
+            s = json.loads(json.dumps(base))
+            for a in s["atoms"]:
+                a["x"], a["y"], a["z"] = tl.gen_coord(rng, False), tl.gen_coord(rng, False), tl.gen_coord(rng, False)
+                a["c"] = tl.gen_charge(rng, False)
+            return tl.build_molecule(en, s, ml.Molecule)
+
+        def dump(ens, steps):
+            want = tl.canon_ensemble(en, ens)
+            ctx.case({"growth": steps, "n": len(want), "base": base["name"]}, True)
+            ctx.count("ensemble_growth_dumps")
+            replay = {"kind": "growth-history", "base": base, "steps": steps}
+            st, text = tl.limited(ens.dumps_mol2)
+            if st != "ok":
+                ctx.violation("C07:dumps-mol2-raises", f"ensemble after {steps}: dumps_mol2 raised {text!r}", replay)
+                return
+            n_written = sum(1 for l in text.split("\n") if l == "@<TRIPOS>MOLECULE")
+            if n_written != len(want):
+                ctx.violation("C07:conformer-count", f"ensemble after {'; '.join(steps)}: {len(want)} conformers "
+                              f"(n_conformers={ens.n_conformers}), {n_written} written", replay)
+            ask("write molecule " + "#".join(tl.mol_request(w) for w in want),
+                lambda resp, text=text, steps=steps: (resp == "ok " + tl.hx(text)) or ctx.disagree(
+                    "ensemble dumps_mol2 after a growth history differs from the model writer on its current arrays", steps, text[:600],
+                    (tl.unhx(resp[3:]) if resp.startswith("ok ") else resp)[:600]))
+
+        try:
+            tl.grow_ensemble(rng, en, ml, base, make_conf, dump, rng.range(0, 3))
+        except Exception as e:  # noqa: BLE001
+            ctx.disagree("growing an ensemble through the public API raised", base["name"], repr(e), "ok")
+
+    # ------------------------------------------------------------------ large texts: just below / above 1 MiB and several
+    # MiB (one molecule of 14 000+ atoms; an ensemble of hundreds of conformers), read as string, stream and path.
+    # The model reader gets the SAME text in one piece (the driver reads a 3.5 MB text in about 2 s).
+    def large_case(tag, target_chars, n_conf):
+        lr = rng.fork("large:" + tag)
+        per_atom = 76
+        if n_conf == 1:
+            n_at = max(2, target_chars // per_atom)
+        else:
+            n_at = 30
+            n_conf = max(2, target_chars // ((n_at + 12) * per_atom // 1 + 300) + 1)
+        elems = [en.ei[en.Element[x]] for x in ("C", "N", "O", "H", "Cl", "Unknown")]
+        base_atoms = [{"e": lr.choice(elems), "t": lr.below(len(en.T)), "g": lr.below(len(en.G)),
+                       "label": tl.gen_label(lr) if lr.chance(1, 3) else f"A{i}"} for i in range(n_at)]
+        bonds = [(i, i + 1, lr.below(len(en.B))) for i in range(min(n_at - 1, 25))] + \
+                [(lr.below(n_at), lr.below(n_at), lr.below(len(en.B))) for _ in range(40)]
+        bonds = [b for b in bonds if b[0] != b[1]]
+        confs = []
+        for c in range(n_conf):
+            atoms = [dict(a, x=tl.gen_coord(lr, False), y=tl.gen_coord(lr, False), z=tl.gen_coord(lr, False),
+                          c=tl.gen_charge(lr, False)) for a in base_atoms]
+            confs.append({"name": "large " + tag, "atoms": atoms, "bonds": bonds})
+        replay = {"kind": "large-text", "tag": tag, "n_atoms": n_at, "n_conformers": n_conf, "seed_fork": "large:" + tag}
+        mols = [tl.build_molecule(en, sp, ml.Molecule) for sp in confs]
+        obj = mols[0] if n_conf == 1 else ml.ConformerEnsemble(mols)
+        st, text = tl.limited(obj.dumps_mol2, 120)
+        if st != "ok":
+            ctx.violation("C07:dumps-mol2-raises", f"large text {tag}: dumps_mol2 raised {text!r}", replay)
+            return
+        ctx.case(f"large:{tag}:{len(text)}", True)
+        ctx.count(f"large_text:{'<' if len(text) < (1 << 20) else '>='}1MiB")
+        ctx.extra_cov.setdefault("large_texts", []).append({"tag": tag, "chars": len(text), "atoms": n_at, "conformers": n_conf})
+        ask("write molecule " + "#".join(tl.mol_request(sp) for sp in confs),
+            lambda resp, text=text, tag=tag: (resp == "ok " + tl.hx(text)) or ctx.disagree(
+                f"large text {tag}: dumps_mol2 differs from the model writer", tag, text[:300], resp[:300]))
+        path = ctx.scratch / f"large_{tag}.mol2"
+        path.write_text(text)
+
+        def via_stream():
+            with open(path, "rt") as f:
+                return ml.Molecule.load_all_mol2(f)
+
+        readers = [("string", lambda: ml.Molecule.loads_all_mol2(text)), ("stream", via_stream),
+                   ("str path", lambda: ml.Molecule.load_all_mol2(str(path))), ("Path", lambda: ml.Molecule.load_all_mol2(path))]
+        if n_conf > 1:
+            readers.append(("ConformerEnsemble.load_mol2(path)", lambda: ml.ConformerEnsemble.load_mol2(str(path))))
+        results = []
+        for how, fn in readers:
+            ctx.count("large_text_reads")
+            st, r = tl.limited(fn, 120)
+            if st != "ok":
+                ctx.violation("C07:own-output-rejected", f"large text {tag} ({len(text)} characters) read through {how}: "
+                              f"molli's own mol2 text was not accepted ({type(r).__name__}: {str(r)[:120]})", replay)
+                continue
+            got = tl.canon_ensemble(en, r) if isinstance(r, ml.ConformerEnsemble) else [tl.canon_mol(en, x) for x in r]
+            if len(got) != n_conf:
+                ctx.violation("C07:conformer-count", f"large text {tag} through {how}: {n_conf} molecules written, {len(got)} read", replay)
+                continue
+            for sp, g in zip(confs, got):
+                oracle_roundtrip(ctx, en, sp, g, f"large text {tag} through {how}", replay)
+            results.append((how, got))
+        ask(f"read molecule ~ 1/1 {tl.hx(text)}",
+            lambda resp, results=results, tag=tag: [
+                tl.mols_equal(got, tl.parse_read_response(resp), extras=False) or ctx.disagree(
+                    f"large text {tag} read through {how} differs from the model reader on the same text", tag,
+                    tl.short_mols(got[:1]), resp[:200]) for how, got in results])
+
+    large_plan = [("above-1MiB", (1 << 20) + 40_000, 1)] if quick else \
+        [("below-1MiB", (1 << 20) - 60_000, 1), ("above-1MiB", (1 << 20) + 40_000, 1), ("3MiB", 3 * (1 << 20) + 200_000, 1),
+         ("ensemble-2MiB", 2 * (1 << 20) + 100_000, 2)]
+    for tag, chars, nc in large_plan:
+        ctx.check_deadline()
+        large_case(tag, chars, nc)
+
+    for i in range(25 if quick else 400):
+        ctx.check_deadline()
+        gb = tl.gen_mol_spec(rng, en, 6, specials=False, name=rng.choice(["grow", "g 2"]))
+        if gb["atoms"]:
+            growth_history(gb)
+
     for si, spec in enumerate(specs):
         ctx.check_deadline()
         if not _admissible_name(spec["name"]):
             continue
+        if si % 3 == 2 and (quick or si < 3000):
+            edit_history(spec, ml.Molecule if si % 2 else ml.Structure)
         nontrivial = len(spec["atoms"]) >= 1 and (len(spec["bonds"]) >= 1 or any(en.T[a["t"]].name != "Regular" for a in spec["atoms"]))
         ctx.case({"mol": spec}, nontrivial)
         ctx.count(f"atoms={min(len(spec['atoms']), 9)}{'+' if len(spec['atoms']) > 9 else ''}")
